@@ -783,3 +783,166 @@ def _reads_after(fnode, stmt, name):
         enclosing_loop = False
     # also later uses inside the same statement are evaluated before the call -> ignored
     return out
+
+
+# ----------------------------------------------------------------------- DIV-ZERO
+_NONNEG_CALLS = ('np.linalg.norm', 'numpy.linalg.norm', 'norm', 'len', 'np.abs', 'abs', 'np.fabs',
+                 'np.trace_abs')
+
+
+def _sign(e, env):
+    """'pos' (> 0 for every input), 'nonneg' (>= 0, and 0 is attained for a zero input), 'any'"""
+    if isinstance(e, ast.Constant) and isinstance(e.value, (int, float)) and \
+            not isinstance(e.value, bool):
+        return 'pos' if e.value > 0 else ('nonneg' if e.value == 0 else 'any')
+    if isinstance(e, ast.Name):
+        return env.get(e.id, 'any')
+    if isinstance(e, ast.Call):
+        fn = norm_text(e.func)
+        if fn in _NONNEG_CALLS:
+            return 'nonneg'
+        if isinstance(e.func, ast.Attribute) and e.func.attr in ('max', 'sum', 'mean', 'min') and \
+                _sign(e.func.value, env) in ('nonneg', 'pos') and not e.args:
+            return 'nonneg'
+        if fn in ('np.max', 'np.sum', 'np.mean', 'np.amax') and e.args and \
+                _sign(e.args[0], env) in ('nonneg', 'pos'):
+            return 'nonneg'
+        if fn in ('np.sqrt', 'math.sqrt', 'float') and e.args:
+            return _sign(e.args[0], env)
+        if fn in ('max', 'np.maximum') and len(e.args) >= 2:
+            ss = [_sign(a, env) for a in e.args]
+            return 'pos' if 'pos' in ss else ('nonneg' if 'nonneg' in ss else 'any')
+        if fn in ('min', 'np.minimum') and len(e.args) >= 2:
+            ss = [_sign(a, env) for a in e.args]
+            return 'pos' if all(x == 'pos' for x in ss) else (
+                'nonneg' if all(x in ('pos', 'nonneg') for x in ss) else 'any')
+        return 'any'
+    if isinstance(e, ast.BinOp):
+        a, b = _sign(e.left, env), _sign(e.right, env)
+        if isinstance(e.op, ast.Mult):
+            return 'pos' if a == b == 'pos' else (
+                'nonneg' if a in ('pos', 'nonneg') and b in ('pos', 'nonneg') else 'any')
+        if isinstance(e.op, ast.Add):
+            if 'pos' in (a, b) and a in ('pos', 'nonneg') and b in ('pos', 'nonneg'):
+                return 'pos'
+            return 'nonneg' if a == b == 'nonneg' else 'any'
+        if isinstance(e.op, ast.Div):
+            return a if b == 'pos' and a in ('pos', 'nonneg') else 'any'
+        if isinstance(e.op, ast.Pow) and isinstance(e.right, ast.Constant) and \
+                isinstance(e.right.value, int) and e.right.value % 2 == 0:
+            return 'pos' if a == 'pos' else 'nonneg'
+        return 'any'
+    if isinstance(e, ast.IfExp):
+        e1, e2 = dict(env), dict(env)
+        _refine(e.test, e1, e2)
+        a, b = _sign(e.body, e1), _sign(e.orelse, e2)
+        return 'pos' if a == b == 'pos' else (
+            'nonneg' if a in ('pos', 'nonneg') and b in ('pos', 'nonneg') else 'any')
+    return 'any'
+
+
+def _refine(test, env_true, env_false):
+    """`X > 0`, `X != 0`, `X` (truthiness) make a non-negative X positive on the true side;
+    `X == 0`, `X <= 0`, `not X` on the false side"""
+    from ..flow import strip_not
+    t, pol = strip_not(test)
+    name, positive_when = None, None
+    if isinstance(t, ast.Name):
+        name, positive_when = t.id, True
+    elif isinstance(t, ast.Compare) and len(t.ops) == 1 and isinstance(t.left, ast.Name) and \
+            isinstance(t.comparators[0], ast.Constant) and t.comparators[0].value == 0:
+        name = t.left.id
+        if isinstance(t.ops[0], (ast.Gt, ast.NotEq)):
+            positive_when = True
+        elif isinstance(t.ops[0], (ast.Eq, ast.LtE)):
+            positive_when = False
+    if name is None or positive_when is None:
+        return
+    if not pol:
+        positive_when = not positive_when
+    tgt = env_true if positive_when else env_false
+    if tgt.get(name) == 'nonneg':
+        tgt[name] = 'pos'
+
+
+def div_zero(ctx, modules=('kalman',)):
+    """C07 / C08 quantify over zero matrices and the zero step.  A division by a scalar the code
+    itself derives as a norm / absolute value / sum of such (>= 0, and exactly 0 for a zero input)
+    without a test that excludes 0 on that path is 0/0 or x/0 for that input - NaN or inf with a
+    numpy warning at most."""
+    ctx.rule('DIV-ZERO', 'no division by a scalar that is >= 0 by construction (a norm, an absolute '
+             'value, their sums / products / quotients) and can be 0 for an admissible input, '
+             'unless a test on the path excludes 0')
+    found = 0
+    n_div = 0
+
+    def scan(f):
+        nonlocal found, n_div
+
+        def block(stmts, env):
+            nonlocal found, n_div
+            for st in stmts:
+                for n in ast.walk(st) if not isinstance(st, (ast.If, ast.For, ast.While)) else []:
+                    div = None
+                    if isinstance(n, ast.BinOp) and isinstance(n.op, (ast.Div, ast.FloorDiv)):
+                        div = n.right
+                    elif isinstance(n, ast.AugAssign) and isinstance(n.op, (ast.Div, ast.FloorDiv)):
+                        div = n.value
+                    if div is None:
+                        continue
+                    n_div += 1
+                    # an enclosing conditional expression refines the sign for its arms
+                    env_here = dict(env)
+                    for ie in ast.walk(st):
+                        if isinstance(ie, ast.IfExp):
+                            if any(x is n for x in ast.walk(ie.body)):
+                                _refine(ie.test, env_here, {})
+                            elif any(x is n for x in ast.walk(ie.orelse)):
+                                _refine(ie.test, {}, env_here)
+                    if _sign(div, env_here) == 'nonneg':
+                        found += 1
+                        deps = sorted({x.id for x in ast.walk(defs.get(div.id, div)
+                                                              if isinstance(div, ast.Name)
+                                                              else div)
+                                       if isinstance(x, ast.Name) and x.id in f.params})
+                        ctx.ob('DIV-ZERO', False, None, 'divisor excludes 0', f=f, node=n,
+                               key='div-' + norm_text(div)[:40],
+                               why='`%s` divides by `%s`, which is >= 0 by construction and exactly '
+                                   '0 for a zero %s: the result is NaN / inf for that admissible '
+                                   'input (no test on this path excludes it)'
+                                   % (norm_text(n)[:70], norm_text(div)[:40],
+                                      ' / '.join(deps) or 'input'))
+                if isinstance(st, ast.Assign) and len(st.targets) == 1 and \
+                        isinstance(st.targets[0], ast.Name):
+                    env[st.targets[0].id] = _sign(st.value, env)
+                    defs[st.targets[0].id] = st.value
+                elif isinstance(st, ast.If):
+                    e1, e2 = dict(env), dict(env)
+                    _refine(st.test, e1, e2)
+                    block(st.body, e1)
+                    block(st.orelse, e2)
+                    # after the branch: keep only facts both arms agree on
+                    for k in set(e1) | set(e2):
+                        a, b = e1.get(k, 'any'), e2.get(k, 'any')
+                        env[k] = a if a == b else (
+                            'nonneg' if a in ('pos', 'nonneg') and b in ('pos', 'nonneg') else 'any')
+                elif isinstance(st, (ast.For, ast.While)):
+                    block(st.body, dict(env))
+        defs = {}
+        block(f.node.body, {})
+    fs = [f for f in ctx.repo.all_functions() if f.module.name.split('.')[-1] in modules]
+    ctx.floor('DIV-ZERO', len(fs), 1, 'functions')
+    for f in fs:
+        ctx.touch(f)
+        scan(f)
+    # positive fixture: the engine must see the unguarded quotient of two norms
+    src = ("def g(F, Q):\n    qn = np.linalg.norm(Q, 1)\n"
+           "    s = np.linalg.norm(F, 1) / qn if qn > 0 else 1.0\n    return (F * s) / s\n")
+    t = ast.parse(src).body[0]
+    env = {}
+    env['qn'] = _sign(t.body[0].value, env)
+    env['s'] = _sign(t.body[1].value, env)
+    if not (env['qn'] == 'nonneg' and env['s'] == 'nonneg'):
+        raise AnalysisError('DIV-ZERO self-check failed: sign domain lost the fixture (%s)' % env)
+    ctx.ob('DIV-ZERO', True, None, '%d divisions in %d functions of %s examined; fixture seen'
+           % (n_div, len(fs), '/'.join(modules)), key='scanned')
